@@ -377,7 +377,8 @@ def r12g(ctx, rep, cr):
     rep.rule('R12g', 'a release that took a key out of the lock table also takes the transaction out of the wait-for graph: in every '
                      'LockManager function that calls WaitForGraph::remove_transaction once (not per element of a collection), no return is '
                      'reachable after a removal from LockManager.locks without passing that call (path-sensitive on the Option that '
-                     'carries the owner found in the table). A cleanup that is made conditional on anything else — the per-transaction '
+                     'carries the owner found in the table; where the owner travels in a value the path analysis cannot follow, the tests in '
+                     'front of the cleanup may depend on the lock table only). A cleanup that is made conditional on anything else — the per-transaction '
                      'key list being empty, for one: try_lock leaves stale keys in it after an expiry take-over — leaves a finished '
                      'transaction as holder in the graph, and its waiters wait for nothing')
     n = 0
@@ -399,13 +400,100 @@ def r12g(ctx, rep, cr):
         rep.analysed(f)
         rets = {i for i, b in enumerate(f.bbs) if b['t'][0] == 'ret'}
         R = A.reachable_cp(f, [0], cut_blocks={c.bb}, marks={x.bb for x in rem})
+        verdict = None
         if R & rets:
+            # the owner may travel in a value the path analysis cannot follow (`removed.last().map(|(_, tx)| *tx)`): then what
+            # the tests in front of the cleanup depend on decides — the lock table (what was removed) is fine, the per-transaction
+            # key list or any other state is a condition that can be false although a key was released
+            cd = A.control_deps(f)
+            seen_, work_, other = set(), [c.bb], set()
+            while work_:
+                b_ = work_.pop()
+                for (a_, _s) in cd.get(b_, ()):
+                    if a_ in seen_:
+                        continue
+                    seen_.add(a_)
+                    work_.append(a_)
+                    t_ = f.bbs[a_]['t']
+                    if t_[0] == 'sw' and t_[1][0] != 'k':
+                        sl_ = A.backward_slice(f, [t_[1]], defs)
+                        flds = set(sl_.fields)
+                        for cn in sl_.closures:
+                            h_ = cr.fns.get(cn)
+                            if h_ is not None:
+                                flds |= set(A.field_reads(h_))
+                        other |= {x for x in flds if x.startswith(T.DT + 'LockManager.') and x != LOCKS}
+            verdict = sorted(other)
+        if R & rets and verdict:
             rep.violation('R12g', f, 'release-without-graph-cleanup', f.loc(c.line),
                           'after a key was removed from the lock table the function can return without WaitForGraph::remove_transaction: '
-                          'the released transaction stays in the wait-for graph as a holder that holds nothing')
+                          'the released transaction stays in the wait-for graph as a holder that holds nothing (the cleanup is conditional on %s)' % ', '.join(x.split('::')[-1] for x in verdict))
+        elif R & rets:
+            rep.holds('R12g', f, 'remove→graph cleanup', 'the cleanup is conditional only on what was found in the lock table')
         else:
             rep.holds('R12g', f, 'remove→graph cleanup', '%d table removal(s), each followed by remove_transaction on every path' % len(rem))
     rep.floor('R12g', 'single-shot graph cleanups after a table removal', n, 1)
+
+
+def r12h(ctx, rep, cr):
+    rep.rule('R12h', 'the cycle search is exhaustive: in the recursive search of the wait-for graph (deadlock::dfs_detect) a neighbour that is '
+                     'not in `visited` is always descended into — from the false edge of visited.contains(neighbour) neither the next '
+                     'loop iteration nor a return is reachable without the recursive call. All roots share one `visited` set, so a node '
+                     'whose successors were skipped once (a depth limit, a budget) is never explored again and every cycle that runs '
+                     'through it is missed: the detector then reports no deadlock although the recorded relations contain one')
+    f = rep.require_fn('R12h', cr, 'tensor_chain::deadlock::dfs_detect')
+    if f is None:
+        return
+    defs, uses = A.Defs(f), A.Uses(f)
+    rec = [c for c in A.calls(f) if c.resolved == f.name]
+    if not rep.floor('R12h', 'recursive calls of the search', len(rec), 1):
+        return
+    def ident(c_):
+        a_ = c_.arg_local(0)
+        if a_ is None:
+            return None
+        fs_, root_ = A.origin_fields(f, a_, defs)
+        return (root_, tuple(A.place_fields(c_.args[0][1]) + fs_))
+    # the visited set is the set the function inserts its own node into first (a parameter, or a field of a search-state struct)
+    ins = sorted(A.calls_to(f, ('re', r'HashSet::<T, S(, A)?>::insert$')), key=lambda c_: c_.bb)
+    reach0 = None
+    vis_id = None
+    for c_ in ins:
+        # first in execution order: the one every other insert is reachable from
+        others = [o_ for o_ in ins if o_ is not c_]
+        R_ = A.reachable(f, [c_.bb])
+        if all(o_.bb in R_ for o_ in others):
+            vis_id = ident(c_)
+            break
+    tests = [c_ for c_ in A.calls_to(f, ('re', r'HashSet::<T, S(, A)?>::contains$')) if vis_id is not None and ident(c_) == vis_id]
+    if not rep.floor('R12h', 'visited tests on a neighbour', len(tests), 1):
+        return
+    rep.analysed(f)
+    stops = {c.bb for c in A.calls(f) if re.search(r'Iterator>?::next$', c.generic) or re.search(r'Iterator>?::next$', c.resolved)} | set(A.return_blocks(f))
+    for k, c in enumerate(tests):
+        o = A.call_outcome(f, c, uses)
+        no = [t for (_, t) in getattr(o, 'err', [])]   # bool outcome: `err` = false edge
+        if not no:
+            rep.unresolved_instance('R12h', f, 'visited test#%d' % k, 'false edge of contains() not recognised')
+            continue
+        R = A.reachable(f, no, cut_blocks={x.bb for x in rec})
+        if R & stops:
+            rep.violation('R12h', f, 'unvisited-neighbour-skipped', f.loc(c.line),
+                          'an unvisited neighbour can be left without descending into it: it stays unexplored for every later root as well '
+                          '(shared visited set), and cycles through it are not reported')
+        else:
+            rep.holds('R12h', f, 'visited test#%d' % k, 'not visited ⇒ recursive call on every path')
+
+
+def r12i(ctx, rep, cr):
+    rep.rule('R12i', 'granting is all-or-nothing and fresh (sibling of R09i): in LockManager::try_lock and ::try_lock_with_wait_tracking the '
+                     'loop around the insert into LockManager.locks inserts an entry on every iteration — no requested key is skipped '
+                     'because an entry of the same transaction is already there (it may have expired: conflict checks ignore expired entries)')
+    import c09
+    for nm in ('try_lock', 'try_lock_with_wait_tracking'):
+        f = rep.require_fn('R12i', cr, LM + nm)
+        if f is not None:
+            c09.acquisition_loop(rep, 'R12i', f, 'LockManager.locks', 'KeyLock.acquired_at_ms')
 
 
 def run(ctx, rep):
@@ -417,5 +505,7 @@ def run(ctx, rep):
     r12e(ctx, rep, cr)
     r12f(ctx, rep, cr)
     r12g(ctx, rep, cr)
+    r12h(ctx, rep, cr)
+    r12i(ctx, rep, cr)
     if ctx.tier == 'thorough':
         witness.run(rep, 'R12a', ['LockTablesArePrivate'])
